@@ -108,6 +108,12 @@ def check_def_view(view, devname, t):
             for k in ("min", "max", "step"):
                 if ca.get(k) is None:
                     probs.append("element %s lacks %s" % (n, k))
+                elif k in sp:
+                    # the declared limit, as a number (whatever notation the definition uses for it)
+                    d = N.denotes(str(ca[k]))
+                    want_k = Fraction(sp[k])
+                    if d is None or abs(d - want_k) > abs(want_k) * Fraction(1, 10**12):
+                        probs.append("element %s %s %r, declared %r" % (n, k, ca[k], sp[k]))
     return probs
 
 
